@@ -237,6 +237,71 @@ def obligations(tier):
 
         obs.append(Obligation(f'controlled.{name}', body, twin=lambda cx, b=body: b(cx, wrong=True), opts={'weight': 8}, desc='ControlledGate / controlled_by / ControlledOperation with 7 control-value specs (incl. qutrit and sum-of-values controls): unitary and apply_unitary equal the block matrix on exactly the selected control states'))
 
+    # ---- D1b: controlled global phases and controlled gates WITH a global shift, mixed control values, and their
+    # decompositions (ControlledGate._decompose_ extracts global phases and re-controls them through
+    # GlobalPhaseGate.controlled, which turns the last control into a target)
+    CV2 = [
+        ('c01', [0, 1], {(0, 1)}),
+        ('c10', [1, 0], {(1, 0)}),
+        ('c00', [0, 0], {(0, 0)}),
+        ('c101', [1, 0, 1], {(1, 0, 1)}),
+        ('c011', [0, 1, 1], {(0, 1, 1)}),
+        ('c(01)0', [(0, 1), 0], {(0, 0), (1, 0)}),
+        ('c1', [1], {(1,)}),
+        ('c0', [0], {(0,)}),
+    ]
+
+    def ctrl_phase_body(cx, wrong=False):
+        t = cx.real('t', -2.0, 2.0)
+        sh = cx.real('s', -1.0, 1.0)
+        kind = cx.choose('sub', 4)
+        cvn, cvals, sel = CV2[cx.choose('cv', len(CV2))]
+        nc = len(cvals)
+        cq = cirq.LineQubit.range(nc)
+        tq = cirq.LineQubit(10)
+        if kind == 0:
+            sub, M, k = cirq.global_phase_operation(D.ph(t)), np.asarray([[D.ph(t)]], dtype=object), 0
+        elif kind == 1:
+            sub, M, k = cirq.XPowGate(exponent=t, global_shift=sh).on(tq), D.X(t, sh), 1
+        elif kind == 2:
+            sub, M, k = cirq.ZPowGate(exponent=t, global_shift=sh).on(tq), D.Z(t, sh), 1
+        else:
+            sub, M, k = cirq.rz(t).on(tq), D.rz(t), 1
+        how = cx.choose('how', 2)
+        if kind != 0:
+            op = sub.controlled_by(*cq, control_values=cvals) if how == 0 else cirq.ControlledOperation(cq, sub, control_values=cvals)
+            # (a controlled zero-qubit phase is rebuilt through np.angle of its coefficient: not encodable with a symbolic
+            # phase, it is compared at the lattice values below)
+            exp = controlled_matrix(perturb(M) if wrong else M, [2] * nc, sel)
+            cx.close(cirq.unitary(op), exp, label=f'controlled phase[{kind},{cvn},{how}].unitary')
+        qs = list(cq) + ([tq] if k else [])
+        n = len(qs)
+        # ControlledGate._decompose_ tests the sub-gate's matrix with np.linalg.det (LAPACK): with symbolic parameters
+        # only the zero-qubit case is encodable; the other kinds are decomposed at the concrete validation points only
+        # bounded exploration: the decomposition extracts phases with np.angle / np.linalg.det (not encodable), so the
+        # gates are decomposed at solver-chosen lattice values of (t, s)
+        tv = [0.5, -0.25, 1.0, 0.3][cx.choose('t_lattice', 4)]
+        sv = [0.25, -0.5, 0.1][cx.choose('s_lattice', 3 if kind in (1, 2) else 1)]
+        if kind == 0:
+            sub2, M2 = cirq.global_phase_operation(np.exp(1j * np.pi * tv)), np.array([[np.exp(1j * np.pi * tv)]])
+        else:
+            sub2, M2 = {1: (cirq.XPowGate(exponent=tv, global_shift=sv).on(tq), D.X(tv, sv)), 2: (cirq.ZPowGate(exponent=tv, global_shift=sv).on(tq), D.Z(tv, sv)), 3: (cirq.rz(tv).on(tq), D.rz(tv))}[kind]
+        op = sub2.controlled_by(*cq, control_values=cvals) if how == 0 else cirq.ControlledOperation(cq, sub2, control_values=cvals)
+        exp = controlled_matrix(perturb(np.asarray(M2, dtype=complex)) if wrong else np.asarray(M2, dtype=complex), [2] * nc, sel)
+        if kind == 0:
+            cx.close(np.asarray(cirq.unitary(op), dtype=complex), exp, label=f'controlled phase[0,{cvn},{how}].unitary (lattice phase)')
+        for depth, parts in (('once', cirq.decompose_once(op, default=None)),):
+            if parts is None:
+                continue
+            tot = np.eye(2**n, dtype=complex).astype(object)
+            for part in cirq.flatten_to_ops(parts):
+                pos = [qs.index(q) for q in part.qubits]
+                Up = np.asarray(cirq.unitary(part), dtype=complex)
+                tot = _matmul(EM.embed_matrix(Up, pos, n) if pos else complex(Up[0, 0]) * np.eye(2**n, dtype=complex), tot)
+            cx.close(tot, exp, tol=2.5e-5, label=f'controlled phase[{kind},{cvn},{how}].decompose_{depth} product')
+
+    obs.append(Obligation('controlled.global_phase', ctrl_phase_body, twin=lambda cx: ctrl_phase_body(cx, wrong=True), opts={'weight': 8}, desc='global_phase_operation(exp(i pi t)) / XPowGate, ZPowGate with symbolic global shift / rz(t) under 1-3 controls with 8 mixed control-value specs (controlled_by and ControlledOperation): unitary equals the block matrix on exactly the selected control states, and so does the ordered product of decompose_once (the decomposition extracts phases with np.angle / np.linalg.det, so it is compared at solver-chosen lattice values of exponent and shift: bounded exploration)'))
+
     # ---- D2: qudit X / Z powers: in-place kernels, unitary and controlled forms agree -------------------------------
     def qudit_body(cx, wrong=False):
         t = cx.real('t', -BOX, BOX)
